@@ -368,3 +368,124 @@ PROPS["C12"] = dict(
 # C09 also runs the handle kind: the listeners' size limits are observed on the bytes real clients receive
 PROPS["C09"]["kinds"].append(handle_kind(["c09-"]))
 PROPS["C09"]["rule"] += ("; " + ROUTER_RULE)
+
+
+# ---------------------------------------------------------------- kind "cfgload" (C10: strict configuration loading, real binary)
+TAGS = ["a", "b", "up", "cn", "blk", "x1"]
+
+
+def cfg_yaml(ups, sets, rules, unk, rng):
+    """YAML text of a configuration; unk = inject one unknown key at a random place"""
+    y = []
+    y.append("servers:")
+    y.append("  - protocol: udp")
+    y.append("    listen: 127.0.0.1:0")
+    if unk == "server":
+        y.append("    lisen: 127.0.0.1:5353")
+    y.append("upstreams:")
+    for i, (t, a) in enumerate(ups):
+        y.append("  - tag: \"%s\"" % t)
+        y.append("    addr: \"%s\"" % a)
+        if unk == "upstream" and i == 0:
+            y.append("    dail_addr: 127.0.0.1")
+    if not ups:
+        y[-1] = "upstreams: []"
+    y.append("domain_sets:")
+    for i, t in enumerate(sets):
+        y.append("  - tag: \"%s\"" % t)
+        y.append("    files: [\"@DIR@/set%d.txt\"]" % (i % 10))
+        if unk == "set" and i == 0:
+            y.append("    file: x")
+    if not sets:
+        y[-1] = "domain_sets: []"
+    y.append("rules:")
+    for i, (rev, dom, rej, fwd) in enumerate(rules):
+        first = True
+        for k, v in (("reverse", "true" if rev else None), ("domain", dom or None), ("reject", rej or None), ("forward", fwd or None)):
+            if v is None:
+                continue
+            y.append("  %s %s: %s" % ("-" if first else " ", k, ("\"%s\"" % v) if isinstance(v, str) and k in ("domain", "forward") else v))
+            first = False
+        if first:
+            y.append("  - reverse: false")
+        if unk == "rule" and i == 0:
+            y.append("    forword: up")
+    if not rules:
+        y[-1] = "rules: []"
+    if unk == "top":
+        y.append("cachee:")
+        y.append("  mem_size: 1")
+    if unk == "nested":
+        y.append("cache:")
+        y.append("  mem_sise: 1024")
+    if unk == "limiter":
+        y.append("limiter:")
+        y.append("  client:")
+        y.append("    limit: 10")
+        y.append("    v5_mask: 24")
+    return "\n".join(y) + "\n"
+
+
+def cfgload_gen(rng, tier):
+    n = budget(tier, 120, 2000)
+    out = []
+    for i in range(n):
+        nup = rng.choice([0, 1, 2, 3])
+        ups = []
+        for _ in range(nup):
+            t = rng.choice(TAGS)
+            ups.append((t, "udp://127.0.0.1:9"))
+        sets = [rng.choice(TAGS) for _ in range(rng.choice([0, 1, 2, 3]))]
+        r = rng.random()
+        if r < 0.08 and ups:
+            ups[rng.randrange(len(ups))] = ("", "udp://127.0.0.1:9")          # missing tag
+        elif r < 0.14 and ups:
+            ups[rng.randrange(len(ups))] = (rng.choice(TAGS), "")               # missing addr
+        elif r < 0.2 and sets:
+            sets[rng.randrange(len(sets))] = ""
+        rules = []
+        for _ in range(rng.choice([0, 1, 2, 4])):
+            dom = rng.choice([""] + ([t for t in sets if t] or [""]) * 2 + [rng.choice(TAGS)])
+            fwd = rng.choice([""] + ([t for t, _ in ups if t] or [""]) * 2 + [rng.choice(TAGS)])
+            rules.append((rng.random() < 0.3, dom, rng.choice([0, 0, 3, 5]), fwd))
+        unk = rng.choice(["-"] * 6 + ["server", "upstream", "set", "rule", "top", "nested", "limiter"])
+        if unk == "upstream" and not ups or unk == "set" and not sets or unk == "rule" and not rules:
+            unk = "top"
+        y = cfg_yaml(ups, sets, rules, unk, rng)
+        d = lambda v: v if v else "-"       # empty list
+        e = lambda v: v if v else "~"       # empty string element
+        out.append("g%d unk=%d ups=%s sets=%s rules=%s yaml=%s" % (
+            i, 0 if unk == "-" else 1,
+            d(",".join("%s:%s" % (e(t), e(a).replace(":", "_").replace("/", "_")) for t, a in ups)),
+            d(",".join(e(t) for t in sets)),
+            d(",".join("%d:%s:%d:%s" % (1 if rev else 0, e(dom), rej, e(fwd)) for rev, dom, rej, fwd in rules)),
+            gens.hx(y.encode())))
+    return out
+
+
+def cfgload_oracle(line, res):
+    if res in ("PANIC!", "HANG", "exit0"):
+        return "the binary did not report the configuration error cleanly: " + res
+    f = gens.fields(line)
+    if f.get("unk") == "1" and res == "started":
+        return "a configuration containing an unknown key was accepted at start-up"
+    tags = [u.split(":")[0] for u in f.get("ups", "-").split(",") if u != "-"]
+    sets = [x for x in f.get("sets", "-").split(",") if x != "-"]
+    if res == "started" and (len(set(tags)) != len(tags) or len(set(sets)) != len(sets) or "~" in tags or "~" in sets):
+        return "a configuration with a repeated or missing tag was accepted at start-up"
+    if res == "started":
+        for r in [x for x in f.get("rules", "-").split(",") if x != "-"]:
+            _, dom, _, fwd = r.split(":")
+            if (dom != "~" and dom not in sets) or (fwd != "~" and fwd not in tags):
+                return "a rule naming an unknown domain-set or upstream tag was accepted at start-up"
+    return None
+
+
+PROPS["C10"]["kinds"].append(dict(name="cfgload", gen=cfgload_gen, oracle=cfgload_oracle, timeout=900,
+                                  nontrivial=lambda l, r: r in ("started", "rejected"),
+                                  classify=lambda l, r: ("unk/" if " unk=1 " in l else "tags/") + r))
+PROPS["C10"]["need_binary"] = True
+PROPS["C10"]["rule"] += ("; cfgload: generated YAML configurations (duplicate / empty / unknown upstream and domain-set tags, missing "
+                         "addresses, an unknown key injected at top level, nested, or inside a server / upstream / set / rule / "
+                         "limiter entry) through the REAL binary: it must start exactly when the model's loader accepts and the "
+                         "file has no unknown key, and otherwise exit with an error (never a panic trace)")
